@@ -52,7 +52,7 @@ func (u *Universe) MethodSource(need map[string]bool) (string, map[string]bool) 
 				fmt.Fprintf(&sb, "func (this *%s) Equal(that *%s) bool { return deriveEqualM%s(this, that) }\n\n", t.Name, t.Name, t.Name)
 			case "custom":
 				imps["strings"] = true
-				fmt.Fprintf(&sb, "func (this *%s) Equal(that *%s) bool {\n\tif this == nil || that == nil {\n\t\treturn this == nil && that == nil\n\t}\n\treturn strings.EqualFold(this.Word, that.Word)\n}\n\n", t.Name, t.Name)
+				fmt.Fprintf(&sb, "func (this *%s) Equal(that *%s) bool {\n\tif this == nil || that == nil {\n\t\treturn this == nil && that == nil\n\t}\n\treturn strings.ToLower(this.Word) == strings.ToLower(that.Word)\n}\n\n", t.Name, t.Name)
 			}
 		}
 		if need["compare"] {
